@@ -139,6 +139,13 @@ func registerIntrinsics(ex *Exec) {
 		st.Repl[cstr(args[0])] = args[1].(Iface).V.(Closure)
 		return nil, true
 	}
+	// GODEBUG settings: none is set
+	I["(*internal/godebug.Setting).Value"] = func(ex *Exec, st *State, args []Value, call ssa.CallInstruction) (Value, bool) {
+		return ex.strConst(""), true
+	}
+	I["(*internal/godebug.Setting).IncNonDefault"] = func(ex *Exec, st *State, args []Value, call ssa.CallInstruction) (Value, bool) {
+		return nil, true
+	}
 	I["strings.Contains"] = func(ex *Exec, st *State, args []Value, call ssa.CallInstruction) (Value, bool) {
 		s, sub := args[0].(Str), args[1].(Str)
 		n, m := len(s.B), len(sub.B)
